@@ -85,6 +85,10 @@ func Load(dir string, overlay map[string][]byte, patterns ...string) (*Prog, err
 		os.Setenv("PATH", "/opt/veriftools/go1.27.0/bin:"+os.Getenv("PATH"))
 	}
 	env := append(os.Environ(), "GOFLAGS=-mod=mod", "GOPROXY=off", "GOSUMDB=off", "GOTOOLCHAIN=local", "GOWORK=off", "CGO_ENABLED=1")
+	if a := os.Getenv("OBSA_GOARCH"); a != "" {
+		// second build configuration (thorough tier): covers the build-tagged siblings
+		env = append(env, "GOARCH="+a, "CGO_ENABLED=0")
+	}
 	cfg := &packages.Config{
 		Mode:    packages.LoadSyntax,
 		Dir:     dir,
